@@ -23,9 +23,9 @@ impl<K, V, S> LruCache<K, V, S> {
 
     /// Walks the intrusive list from the least- to the most-recently-used
     /// entry and checks that it is a simple cycle through the seal whose
-    /// nodes are exactly the live buckets of the table, that `next`/`prev`
-    /// links mirror each other and that the recorded sizes sum up to
-    /// `current_size`. A link is only ever dereferenced if it points to a
+    /// nodes are exactly the live buckets of the table and that `next`/`prev`
+    /// links mirror each other. The recorded sizes are returned for the
+    /// caller to compare with `current_size`. A link is only ever dereferenced if it points to a
     /// live bucket or the seal, so a dangling link is reported instead of
     /// read.
     pub fn verif_structure(&self) -> Result<VerifStructure, String> {
@@ -99,14 +99,6 @@ impl<K, V, S> LruCache<K, V, S> {
             return Err(format!(
                 "list has {} nodes but the table holds {} entries",
                 addrs.len(), self.table.len()));
-        }
-
-        let sum = sizes.iter().fold(0usize, |a, &b| a.wrapping_add(b));
-
-        if sum != self.current_size {
-            return Err(format!(
-                "recorded sizes sum to {} but current_size is {}",
-                sum, self.current_size));
         }
 
         Ok(VerifStructure { addrs, sizes })
